@@ -124,6 +124,7 @@ inductive Err
   | entropy              -- bip39 refuses the entropy size
   | wrongPassword        -- ErrWrongPassword
   | version | cipher | kdfName   -- ReadKeyFile refusals
+  | nonceLength          -- `cipher.AEAD.Open` PANICS ("incorrect nonce length given to GCM") — not an error value
   deriving DecidableEq, Repr
 
 def Err.show : Err → String
@@ -135,6 +136,7 @@ def Err.show : Err → String
   | .version => "version"
   | .cipher => "cipher"
   | .kdfName => "kdf"
+  | .nonceLength => "panic"
 
 /-- `wallet.key` -/
 structure Key where
@@ -285,12 +287,14 @@ def readChecks (kf : KeyFile) : Except Err KeyFile :=
   else if kf.kdf ≠ Gen.argonName then .error .kdfName
   else .ok kf
 
-/-- `KeyFile.Decrypt` up to the recovered entropy -/
+/-- `KeyFile.Decrypt` up to the recovered entropy. A nonce that is not `gcm.NonceSize()` bytes long makes
+    `stream.Open` panic (the code has no length check); every other failure of `Open` is mapped to ErrWrongPassword. -/
 def decryptEntropy (C : CryptoFns) (kf : KeyFile) (pw : Bytes) : Except Err Bytes :=
   let dk := passwordKey C Gen.argonParams_SetFromJSON pw kf.salt
-  match C.aeadOpen dk kf.nonce Gen.openAD kf.cipherData with
-  | none => .error .wrongPassword
-  | some e => .ok e
+  if kf.nonce.length ≠ Gen.gcmNonceSize then .error .nonceLength
+  else match C.aeadOpen dk kf.nonce Gen.openAD kf.cipherData with
+    | none => .error .wrongPassword
+    | some e => .ok e
 
 /-- `KeyFile.Decrypt(password)` -/
 def decrypt (C : CryptoFns) (kf : KeyFile) (pw : Bytes) : Except Err KeyStore :=
